@@ -118,7 +118,29 @@ func runFLAGS(c *Ctx) {
 						}
 					}
 				}
+				// dirty must be false whenever shared becomes true: stored false on every path, or the node is a
+				// zero-initialised local of the loader (decoders write into `var node mastNode`)
+				cleared := func(i ssa.Instruction) bool {
+					bb, f, s, ok := flagStore(i)
+					if !ok || f != "dirty" || !sameBase(bb, base) {
+						return false
+					}
+					v, isC := ir.ConstBool(s.Val)
+					return isC && !v
+				}
+				dirtyCleared := true
+				for _, r := range ir.Returns(fn) {
+					if ir.InstrReaches(st, r) && !ir.MustPass(r, cleared) {
+						dirtyCleared = false
+					}
+				}
+				if !dirtyCleared && paramIsZeroLocal(c, fn, base, 0) {
+					dirtyCleared = true
+				}
 				switch {
+				case !dirtyCleared:
+					c.Violation(fn, pos, "shared=true on a node that may still be dirty",
+						"the node becomes shared (cached, reachable from other versions) without its dirty flag being cleared: savePathForRoot does not copy dirty nodes, so the next change below it edits the shared node in place")
 				case !okAll:
 					c.Violation(fn, pos, "shared=true without a source name",
 						"a node is flagged shared but no non-nil source is recorded on every path: a later flush re-encodes and re-stores it (and writes into the shared node), and the ownership argument's valuation shared ⇒ source≠nil no longer holds")
@@ -864,4 +886,45 @@ func runGLOBAL(c *Ctx) {
 			}
 		}
 	}
+}
+
+// paramIsZeroLocal: base is a parameter that every caller binds to the address
+// of a local mastNode variable which is never written a dirty=true (a freshly
+// zero-initialised node, as the loader's `var node mastNode`).
+func paramIsZeroLocal(c *Ctx, fn *ssa.Function, base ssa.Value, depth int) bool {
+	p, ok := ir.ResolveCell(base).(*ssa.Parameter)
+	if !ok || depth > 3 {
+		return false
+	}
+	idx := paramIndex(p)
+	callers := c.Facts.Own().rcallers[fn]
+	if len(callers) == 0 {
+		return false
+	}
+	for _, cs := range callers {
+		if idx >= len(cs.Common().Args) {
+			return false
+		}
+		a := cs.Common().Args[idx]
+		switch x := ir.ResolveCell(a).(type) {
+		case *ssa.Alloc:
+			// no dirty=true store on this local
+			for _, b := range x.Parent().Blocks {
+				for _, ins := range b.Instrs {
+					if bb, f, s, ok := flagStore(ins); ok && f == "dirty" && sameBase(bb, x) {
+						if v, isC := ir.ConstBool(s.Val); !isC || v {
+							return false
+						}
+					}
+				}
+			}
+		case *ssa.Parameter:
+			if !paramIsZeroLocal(c, cs.Parent(), x, depth+1) {
+				return false
+			}
+		default:
+			return false
+		}
+	}
+	return true
 }
